@@ -121,26 +121,44 @@ def run_generation(ctx, root, info, case, ifaces):
     r = core.run_mockery(ctx, cwd, [], env_extra=env_extra, timeout=600, cpu_limit=300)
     if r.exit == 0 and not r.panicked:
         return set(i["name"] for i in ifaces), {}, r
-    # attribute: each interface alone (outputs of a partially successful run are overwritten: force-file-write)
+    # attribute: each interface alone. Every generated file is taken out of the tree before the next single run: a mock that was written
+    # but does not compile (C01's own findings) sits in the source package for in-package placements and would make the loader reject the
+    # package for the innocent interfaces that follow. The files are put back for the compile step.
     failures = {}
     ok = set()
     cfg = info["cfg"]
-    for i in ifaces:
-        c2 = dict(cfg)
-        c2["force-file-write"] = True
-        c2["packages"] = {info["srcpath"]: {"interfaces": {i["name"]: None}}}
-        with open(os.path.join(root, ".mockery.yml"), "w") as f:
-            f.write(json.dumps(c2, ensure_ascii=False))
-        p = os.path.join(root, out_file(info, i, case["placement"]))
+    stash = os.path.join(root, ".stash-generated")
+    os.makedirs(stash, exist_ok=True)
+    paths = {i["name"]: os.path.join(root, out_file(info, i, case["placement"])) for i in ifaces}
+    for p in set(paths.values()):
         if os.path.exists(p):
             os.unlink(p)
+    for k, i in enumerate(ifaces):
+        c2 = dict(cfg)
+        c2["force-file-write"] = True
+        ent = (cfg["packages"][info["srcpath"]].get("interfaces") or {}).get(i["name"])
+        c2["packages"] = {info["srcpath"]: dict({kk: vv for kk, vv in cfg["packages"][info["srcpath"]].items() if kk != "interfaces"}, interfaces={i["name"]: ent})}
+        with open(os.path.join(root, ".mockery.yml"), "w") as f:
+            f.write(json.dumps(c2, ensure_ascii=False))
+        p = paths[i["name"]]
         ri = core.run_mockery(ctx, cwd, [], env_extra=env_extra, timeout=600, cpu_limit=300)
         if ri.exit == 0 and not ri.panicked:
             ok.add(i["name"])
+            if os.path.exists(p) and not info.get("onefile"):
+                os.replace(p, os.path.join(stash, "%d.go" % k))
         else:
             failures[i["name"]] = ri
             if os.path.exists(p):
                 os.unlink(p)
+    for k, i in enumerate(ifaces):
+        sp = os.path.join(stash, "%d.go" % k)
+        if os.path.exists(sp):
+            os.makedirs(os.path.dirname(paths[i["name"]]), exist_ok=True)
+            os.replace(sp, paths[i["name"]])
+    try:
+        os.rmdir(stash)
+    except OSError:
+        pass
     return ok, failures, r
 
 
